@@ -40,6 +40,11 @@ def r_guards(chk, P, tier):
                 if oks_:
                     errs.append((oks_[0][2][1][3], [pp(oks_[0][2][0])[:400]] + [pp(c[1])[:400] for c in sw]))
                     continue
+                # the residual of an inlined helper's explicit `return Err(RoundingError::X)`
+                direct = [x for x in walk_terms(p.ret) if x[0] == "agg" and x[1] == "adt" and x[2] == "round::RoundingError"]
+                if direct:
+                    errs.append((direct[0][3], [pp(c[1])[:400] for c in sw]))
+                    continue
             if var == "Err":
                 errs.append((payload[0][3], [pp(c[1])[:400] for c in sw]))
             elif var == "Ok":
